@@ -533,4 +533,147 @@ example : ∀ chunks : List Bytes, chunks.flatten = [exStreamFrame].flatten →
   fun chunks h => stream_pipeline_generic _ (family_lawful exC (by decide)) [] exLayout _ _ chunks
     ex_stream_hyps.1 ex_stream_hyps.2.1 ex_stream_hyps.2.2.1 ex_stream_hyps.2.2.2 h
 
+
+/-! ## Round 7 — algebra of EVERY lawful codec, and several codecs in one process -/
+
+/-- **frame overhead is exactly header + footer**, every lawful codec: a created frame (id the decoder knows) is
+    `hdrLen + |payload| + footLen` bytes long — no codec that honours the interface can pad, escape or compress -/
+theorem create_length_generic (c : Codec) (hc : LawfulCodec c) (fid : Nat) (p f : Bytes)
+    (h : c.frameCreate fid (some p) = .ok f) (hf : fid ≤ 8) : f.length = c.hdrLen + p.length + c.footLen := by
+  obtain ⟨hd, h', hh, hfl⟩ := hc.frameCreate_decode fid p f h hf
+  obtain ⟨h'', hh', h1, h2, _, h4⟩ := (hc.frameDecode_iff f ⟨fid, p⟩).mp hd
+  rw [hh] at hh'
+  cases hh'
+  have hp : p = slice f c.hdrLen (h'.flen - c.footLen) := by injection h4
+  have := congrArg List.length hp
+  simp [slice] at this
+  omega
+
+/-- **create is injective**, every lawful codec: two (id, payload) pairs with ids ≤ 8 never share a frame -/
+theorem create_injective_generic (c : Codec) (hc : LawfulCodec c) (fid fid' : Nat) (p p' f : Bytes)
+    (h : c.frameCreate fid (some p) = .ok f) (h' : c.frameCreate fid' (some p') = .ok f)
+    (hf : fid ≤ 8) (hf' : fid' ≤ 8) : fid = fid' ∧ p = p' := by
+  have a := (hc.frameCreate_decode fid p f h hf).1
+  have b := (hc.frameCreate_decode fid' p' f h' hf').1
+  rw [a] at b
+  have := Except.ok.inj b
+  injection this with x y
+  exact ⟨x, y⟩
+
+/-- **decode ∘ create = id with anything behind**, every lawful codec: a created frame followed by ANY bytes (next frame,
+    padding, noise) decodes to the same id and payload, and is dispatched as that request by the device side -/
+theorem decode_create_append_generic (c : Codec) (hc : LawfulCodec c) (fid : Nat) (p f rest : Bytes)
+    (h : c.frameCreate fid (some p) = .ok f) (hf : fid ≤ 8) :
+    c.frameDecode (f ++ rest) = .ok ⟨fid, p⟩ ∧ recvHandleWith c (f ++ rest) = cbHandle fid p := by
+  have hd := (hc.frameCreate_decode fid p f h hf).1
+  have ha := Dispatch.frameDecode_append hc f rest _ hd
+  refine ⟨ha, ?_⟩
+  have := created_dispatched c hc fid p f [] rest h hf (by simp)
+  simpa using this
+
+/-- a byte string is accepted as at most one frame, every codec (acceptance is a function) — and for a lawful codec the
+    accepted (id, payload) is determined by the first `flen` bytes alone -/
+theorem accept_prefix_generic (c : Codec) (hc : LawfulCodec c) (d d' : Bytes) (fr : Frame) (h : Hdr)
+    (hd : c.frameDecode d = .ok fr) (hh : c.hdrDecode d = .ok h) (hpre : d'.take h.flen = d.take h.flen) :
+    c.frameDecode d' = .ok fr := by
+  obtain ⟨h0, hh0, h1, h2, h3, h4⟩ := (hc.frameDecode_iff d fr).mp hd
+  rw [hh] at hh0; cases hh0
+  have hl0 : c.hdrLen ≤ d.length := by omega
+  have hT : c.frameDecode (d.take h.flen) = .ok fr := by
+    rw [hc.frameDecode_iff]
+    refine ⟨h, ?_, h1, by simp; omega, ?_, ?_⟩
+    · rw [hc.hdrDecode_prefix _ (by simp; omega), List.take_take, Nat.min_eq_left (by omega),
+        ← hc.hdrDecode_prefix d hl0]
+      exact hh
+    · rw [List.take_take, Nat.min_self]; exact h3
+    · rw [h4]; simp only [slice]; rw [List.take_take, Nat.min_eq_left (by omega)]
+  have hl : (d.take h.flen).length = h.flen := by rw [List.length_take]; omega
+  have hd' : d' = d.take h.flen ++ d'.drop h.flen := by rw [← hpre, List.take_append_drop]
+  rw [hd']
+  exact Dispatch.frameDecode_append hc _ _ _ hT
+
+/-! ### several parsers with different codecs in one process
+
+  `comm.py` keeps the unconsumed tail of its reads per `CommHandler`; the codec object belongs to the `Parser` it was
+  built with.  `Proc` is a process with any number of receive paths: path `k` has codec `κ k` and its own carry-over
+  buffer; an event `(k, chunk)` is one read of path `k`: it scans buffer ++ chunk with ITS codec (`Reasm.scan`), delivers the
+  frames and keeps `Reasm.scanRest`.  There is no shared state in the model (the static scan `frame_uses_generic` shows
+  the code has no frame constant outside the codec object either) — the product theorem says what that buys. -/
+
+/-- one read of path `k` -/
+def Proc.step (κ : Nat → Codec) (bufs : Nat → Bytes) (ev : Nat × Bytes) : (Nat → Bytes) × List Frame :=
+  let d := bufs ev.1 ++ ev.2
+  (fun j => if j = ev.1 then Reasm.scanRest (κ ev.1) d else bufs j, Reasm.scan (κ ev.1) d)
+
+/-- the frames path `k` delivers during an interleaved history of reads -/
+def Proc.framesFor (κ : Nat → Codec) (k : Nat) : (Nat → Bytes) → List (Nat × Bytes) → List Frame
+  | _, [] => []
+  | bufs, ev :: rest =>
+    let r := Proc.step κ bufs ev
+    (if ev.1 = k then r.2 else []) ++ Proc.framesFor κ k r.1 rest
+
+/-- the bytes read by path `k`, in order -/
+def Proc.bytesFor (k : Nat) (evs : List (Nat × Bytes)) : Bytes :=
+  (evs.filterMap fun ev => if ev.1 = k then some ev.2 else none).flatten
+
+theorem Proc.framesFor_spec (κ : Nat → Codec) (k : Nat) (hk : LawfulCodec (κ k)) (bufs : Nat → Bytes)
+    (evs : List (Nat × Bytes)) (hw : Reasm.Waiting (κ k) (bufs k)) :
+    Proc.framesFor κ k bufs evs = Reasm.scan (κ k) (bufs k ++ Proc.bytesFor k evs) := by
+  induction evs generalizing bufs with
+  | nil =>
+    simp only [Proc.framesFor, Proc.bytesFor, List.filterMap_nil, List.flatten_nil, List.append_nil]
+    exact (Reasm.scan_of_waiting hk hw).symm
+  | cons ev rest ih =>
+    obtain ⟨j, chunk⟩ := ev
+    by_cases hj : j = k
+    · subst hj
+      have hb : Proc.bytesFor j ((j, chunk) :: rest) = chunk ++ Proc.bytesFor j rest := by
+        simp [Proc.bytesFor]
+      have hw' : Reasm.Waiting (κ j) ((Proc.step κ bufs (j, chunk)).1 j) := by
+        simp only [Proc.step, if_true]
+        exact Reasm.scanRest_waiting hk _
+      have := ih (Proc.step κ bufs (j, chunk)).1 hw'
+      simp only [Proc.framesFor, if_true]
+      rw [this, hb, ← List.append_assoc, Reasm.scan_resume hk (bufs j ++ chunk)]
+      simp [Proc.step]
+    · have hb : Proc.bytesFor k ((j, chunk) :: rest) = Proc.bytesFor k rest := by
+        simp [Proc.bytesFor, hj]
+      have hsame : (Proc.step κ bufs (j, chunk)).1 k = bufs k := by
+        simp only [Proc.step]
+        rw [if_neg (fun e : k = j => hj e.symm)]
+      have := ih (Proc.step κ bufs (j, chunk)).1 (by rw [hsame]; exact hw)
+      simp only [Proc.framesFor, if_neg hj, List.nil_append]
+      rw [this, hb, hsame]
+
+/-- **product theorem — codecs sharing a process do not interfere**: in a process with any number of receive paths, each
+    built with its own codec (lawful or NOT, except for the path looked at), under ANY interleaving of their reads and any
+    chunking, path `k` delivers exactly the frames of the byte stream IT read, scanned with ITS codec — i.e. exactly what
+    `Reasm.run (κ k)` delivers when path `k` is alone in the process (`C03.run_eq_scan`) -/
+theorem codecs_do_not_interfere (κ : Nat → Codec) (k : Nat) (hk : LawfulCodec (κ k)) (evs : List (Nat × Bytes)) :
+    Proc.framesFor κ k (fun _ => []) evs =
+      Reasm.run (κ k) (evs.filterMap fun ev => if ev.1 = k then some ev.2 else none) := by
+  rw [Proc.framesFor_spec κ k hk _ evs (Or.inl rfl), C03.run_eq_scan _ hk]
+  rfl
+
+/-- … in particular the built-in codec next to any family member, and any two family members -/
+theorem family_codecs_do_not_interfere (p q : Family.Params) (hp : p.valid) (evs : List (Nat × Bytes)) :
+    let κ : Nat → Codec := fun j => if j = 0 then Family.codec p else if j = 1 then Family.codec q else Serial.codec
+    Proc.framesFor κ 0 (fun _ => []) evs =
+      Reasm.run (Family.codec p) (evs.filterMap fun ev => if ev.1 = 0 then some ev.2 else none) := by
+  intro κ
+  exact codecs_do_not_interfere κ 0 (family_lawful p hp) evs
+
+/-- non-vacuity (round 7): `exC` (XOR footer, 2-byte header behind 0x55) and `exA` (0xAA, CRC-32) in one process, reads
+    interleaved and cut inside frames; path 0 delivers its two frames, path 1 its one -/
+example :
+    let κ : Nat → Codec := fun j => if j = 0 then Family.codec exC else Family.codec exA
+    let evs : List (Nat × Bytes) := [(0, [0x55, 0x05]), (1, [0xAA, 0x00, 0x0A]), (0, [0x05, 0x01, 0x54, 0x55]),
+      (1, [0x05, 0x00, 0x01, 0x32, 0x81, 0x34, 0x17]), (0, [0x04, 0x02, 0x53])]
+    Proc.framesFor κ 0 (fun _ => []) evs = [⟨5, [0x01]⟩, ⟨2, []⟩] ∧
+    Proc.framesFor κ 1 (fun _ => []) evs = [⟨5, [0x01]⟩] := by
+  decide +kernel
+example : (Family.codec exC).frameCreate 5 (some [0x01]) = .ok [0x55, 0x05, 0x05, 0x01, 0x54] ∧
+    ([0x55, 0x05, 0x05, 0x01, 0x54] : Bytes).length = (Family.codec exC).hdrLen + 1 + (Family.codec exC).footLen := by
+  decide +kernel
+
 end Nxs.C20
